@@ -30,7 +30,7 @@ func TestC18States(t *testing.T) {
 	if os.Getenv("VERIF_REPLAY") != "" {
 		return
 	}
-	n := 60
+	n := 600
 	if os.Getenv("VERIF_TIER") == "thorough" {
 		n = 1500
 	}
